@@ -299,6 +299,9 @@ def filter_parity_rule(P, rep, rid):
     from .. import region as RG
     import itertools
     f = P.fn('state_filter')
+    for nm in ('filter_path', 'lev_config_name'):
+        if not P.has(nm):
+            raise AnalysisBroken('anchor function %s not found in program' % nm)
     rep.analysed(f)
     rep.rule(rid, 'state_filter over file list x disk list x -m x disk-filter answers: parity excluded iff (disk filter present ? name rejected : (-m or file filter present))', 1)
     ds = P.distructs.get('snapraid_state'); dp = P.distructs.get('snapraid_parity'); dn = P.distructs.get('tommy_node_struct')
